@@ -49,6 +49,9 @@ type Packfile struct {
 	id           plumbing.Hash
 	m            sync.Mutex
 	objectIDSize int
+	// deltaDepth counts the delta bases being resolved by the current
+	// lookup (guarded by m).
+	deltaDepth int
 
 	once    sync.Once
 	onceErr error
@@ -431,6 +434,13 @@ func (p *Packfile) getMemoryObject(oh *ObjectHeader) (plumbing.EncodedObject, er
 	case plumbing.REFDeltaObject, plumbing.OFSDeltaObject:
 		var parent plumbing.EncodedObject
 
+		// Resolving the base recurses into this function. A chain longer
+		// than canonical Git allows, or a cycle of REF deltas made up by a
+		// crafted index, is refused instead of followed.
+		if p.deltaDepth >= maxDeltaChainDepth {
+			return nil, fmt.Errorf("%w: delta chain depth exceeds %d", ErrMalformedPackfile, maxDeltaChainDepth)
+		}
+		p.deltaDepth++
 		switch oh.Type {
 		case plumbing.REFDeltaObject:
 			var ok bool
@@ -441,6 +451,7 @@ func (p *Packfile) getMemoryObject(oh *ObjectHeader) (plumbing.EncodedObject, er
 		case plumbing.OFSDeltaObject:
 			parent, err = p.getByOffset(oh.OffsetReference)
 		}
+		p.deltaDepth--
 
 		if err != nil {
 			return nil, fmt.Errorf("cannot find base object: %w", err)
